@@ -92,6 +92,12 @@ def run(eng, tier, seed):
                 if pyt.get(ident) != p_exp:
                     problem = '%s: pytest reports %r, constructed outcome %r (native: %r)' % (ident, pyt[ident], outcome, native.get(ident))
                     break
+            if problem is None:
+                counts = {o: sum(1 for v in expect.values() if v == o) for o in ('passed', 'failed', 'skipped')}
+                got_counts = {'passed': summary.get('n_passed'), 'failed': summary.get('n_failed'), 'skipped': summary.get('n_skipped')}
+                if got_counts != counts or summary.get('n_total') != sum(counts.values()) or len(summary.get('failed', [])) != counts['failed']:
+                    problem = 'C10: native tallies %r (n_total %r, %d listed as failed), constructed %r' % (
+                        got_counts, summary.get('n_total'), len(summary.get('failed', [])), counts)
             any_failed = any(o == 'failed' for o in expect.values())
             if problem is None and ((proc.returncode != 0) != any_failed or native_failed != any_failed):
                 problem = 'failure signalling differs: pytest exit %d, native n_failed > 0 is %r, some doctest failed by construction: %r' % (
